@@ -21,7 +21,7 @@ PROPS = {
                  'models of File / BorrowedFd / HandleData / InodeData / CString / ManuallyDrop (identity) in vx/units/ptsize.py'],
     ),
     'C05': dict(
-        vx_units=['ptops', 'ptstatx', 'fhandle', 'ptlookup', 'ptcore'], kx=[], rx=['pt'],
+        vx_units=['ptops', 'ptstatx', 'fhandle', 'ptlookup', 'ptcore', 'fhcmp'], kx=[], rx=['pt'],
         # the host object a LOOKUP (and the entry reply of mkdir / mknod / symlink / link / create) is about: openat(parent's descriptor, exactly the client's name), `..` at
         # the export root being the root itself and nothing else being rewritten - the [open] capability of do_lookup in unit ptlookup ([C08.lookup.root_parent])
         alias=[r'^ptlookup\.do_lookup\.open$'],
@@ -106,7 +106,7 @@ PROPS = {
         trusted=['T3 as C01', 'T4 as C01'],
     ),
     'C16': dict(
-        vx_units=['server', 'ptreaddir', 'pseudofs'], kx=[], rx=['readdir', 'pt'],
+        vx_units=['server', 'ptreaddir', 'pseudofs', 'fhcmp'], kx=[], rx=['readdir', 'pt'],
         design_ref='DESIGN.md A.4 / A.6 (D15)',
         not_covered=[
             'the closures of passthrough readdir / readdirplus (unit ptlookup, C08: reference accounting); the VFS wrappers around a backend listing; for the pseudo fs: the composition of the lifted readdirplus closure with the continuation (adapter `plus_sink`, assumed), "no reply exceeds the requested size" is the server side (add_dirent)',
@@ -132,7 +132,7 @@ PROPS = {
                  'kernel side: process_init_reply() reads flags2 only if FUSE_INIT_EXT is set in flags (fs/fuse/inode.c)'],
     ),
     'C08': dict(
-        vx_units=['inodes', 'ptlookup', 'ptcore'], kx=[], rx=['pt'],
+        vx_units=['inodes', 'ptlookup', 'ptcore', 'fhcmp'], kx=[], rx=['pt'],
         design_ref='DESIGN.md A.4 / A.6 (D16, D17)',
         not_covered=[
             'forget_one keeping the store invariant of unit ptlookup (unit inodes states its frame only); import() itself (only the state it builds)',
@@ -161,7 +161,7 @@ PROPS = {
                  'T8 rely: at every lock acquisition the store may have become ANY store satisfying the invariant (other threads keep the invariant); guarantee: this thread keeps it (lemmas of unit ptlookup)'],
     ),
     'C04': dict(
-        vx_units=['iobuffers', 'fusedevw', 'asyncdevw', 'virtiofsw', 'virtiofsw_async', 'writerenum', 'readerrd', 'filebuf', 'zcstreams'], kx=['file_buf'],
+        vx_units=['iobuffers', 'fusedevw', 'asyncdevw', 'virtiofsw', 'virtiofsw_async', 'writerenum', 'readerrd', 'filebuf', 'zcstreams', 'transrest'], kx=['file_buf'],
         design_ref='DESIGN.md A.4',
         not_covered=[
             'IoBuffers::available_bytes (iterator fold): assumed contract (returns the number of addresses still covered when that fits in usize)',
@@ -176,7 +176,7 @@ PROPS = {
                  'write / writev / pwrite on /dev/fuse are all-or-nothing (fuse_dev_do_write); Vec capacity/base uninterpreted with len <= capacity; Vec::set_len by assume_specification; std Write::write_all as a hand copy of the std text'],
     ),
     'C17': dict(
-        vx_units=['iobuffers', 'virtiofsw', 'virtiofsw_async', 'writerenum', 'readerrd', 'filebuf'], kx=[],
+        vx_units=['iobuffers', 'virtiofsw', 'virtiofsw_async', 'writerenum', 'readerrd', 'filebuf', 'transrest'], kx=[],
         # the Writer enum hands the operation to the wrapped writer unchanged (a wrong forward loses or misplaces the marking); the file READ functions of unit
         # filebuf fill guest memory and REPORT how much - the writer marks exactly what they report, so a read that fills more than it reports (seed C17-f:
         # the async vectored read returning early with a smaller count after all four buffers were filled) leaves modified memory clean
@@ -242,7 +242,7 @@ PROPS = {
                  'cargo feature `persist` switched on for these units only; rules R33 (iter().map().collect() as an index loop) and R34 (`if C { continue; } REST` as if/else)'],
     ),
     'C20': dict(
-        vx_units=['asyncsrv', 'asyncdevw', 'asyncarcfs', 'asyncvfs', 'server', 'arcfs', 'vfs', 'writerenum', 'virtiofsw_async', 'asyncpt', 'zcstreams'], kx=[],
+        vx_units=['asyncsrv', 'asyncdevw', 'asyncarcfs', 'asyncvfs', 'server', 'arcfs', 'vfs', 'writerenum', 'virtiofsw_async', 'asyncpt', 'zcstreams', 'transrest'], kx=[],
         # the async entry points of VirtioFsWriter are verified in unit virtiofsw_async against the clauses of their sync twins (same cursor movement, same marking, same refusals)
         alias=[r'^C04\.async_', r'^C17\.async_', r'^virtiofsw_async\.'],
         design_ref='DESIGN.md A.4',
